@@ -143,31 +143,7 @@ fn main() {
                 .collect();
             // watchdog: a case that does not finish within the budget is a hang
             // (livelock inside the library); report it and stop the process
-            let progress = std::sync::Arc::new(std::sync::atomic::AtomicUsize::new(usize::MAX));
-            let tick = std::sync::Arc::new(std::sync::atomic::AtomicUsize::new(0));
-            {
-                let progress = progress.clone();
-                let tick = tick.clone();
-                let budget: u64 = m.get("hang-secs").and_then(|s| s.parse().ok()).unwrap_or(20);
-                std::thread::spawn(move || {
-                    let mut last = (usize::MAX, 0usize);
-                    let mut since = std::time::Instant::now();
-                    loop {
-                        std::thread::sleep(std::time::Duration::from_millis(200));
-                        let cur = (
-                            progress.load(std::sync::atomic::Ordering::Relaxed),
-                            tick.load(std::sync::atomic::Ordering::Relaxed),
-                        );
-                        if cur != last {
-                            last = cur;
-                            since = std::time::Instant::now();
-                        } else if cur.0 != usize::MAX && since.elapsed().as_secs() >= budget {
-                            println!("hang case={}", cur.0);
-                            std::process::exit(3);
-                        }
-                    }
-                });
-            }
+            let watchdog = util::Watchdog::start(m.get("hang-secs").and_then(|s| s.parse().ok()).unwrap_or(20));
             let mut f_in = std::fs::File::create(format!("{}/seq.in", out)).unwrap();
             let mut f_impl = std::fs::File::create(format!("{}/seq.impl", out)).unwrap();
             let mut f_log = std::fs::File::create(format!("{}/seq.log", out)).unwrap();
@@ -182,8 +158,7 @@ fn main() {
                 flush_to(&mut f_in, &mut inp);
                 flush_to(&mut f_impl, &mut imp);
                 flush_to(&mut f_log, &mut log);
-                progress.store(case.id, std::sync::atomic::Ordering::Relaxed);
-                tick.fetch_add(1, std::sync::atomic::Ordering::Relaxed);
+                watchdog.begin(case.id);
                 inp.extend(case.lines());
                 flush_to(&mut f_in, &mut inp);
                 // a corpus file may carry its images next to it (<file>.img0, .img1,
@@ -426,25 +401,7 @@ fn main() {
             let nops: usize = m.get("ops").and_then(|s| s.parse().ok()).unwrap_or(16);
             let mut imp = Vec::new();
             let mut inp = Vec::new();
-            let progress = std::sync::Arc::new(std::sync::atomic::AtomicUsize::new(usize::MAX));
-            {
-                let progress = progress.clone();
-                std::thread::spawn(move || {
-                    let mut last = usize::MAX;
-                    let mut since = std::time::Instant::now();
-                    loop {
-                        std::thread::sleep(std::time::Duration::from_millis(200));
-                        let cur = progress.load(std::sync::atomic::Ordering::Relaxed);
-                        if cur != last {
-                            last = cur;
-                            since = std::time::Instant::now();
-                        } else if cur != usize::MAX && since.elapsed().as_secs() >= 10 {
-                            println!("hang case={}", cur);
-                            std::process::exit(3);
-                        }
-                    }
-                });
-            }
+            let watchdog = util::Watchdog::start(m.get("hang-secs").and_then(|s| s.parse().ok()).unwrap_or(10));
             let skip: Vec<usize> = m.get("skip").map(|s| s.split(',').filter_map(|x| x.parse().ok()).collect()).unwrap_or_default();
             let mut f_in = std::fs::File::create(format!("{}/seq.in", out)).unwrap();
             for id in 0..n {
@@ -472,7 +429,7 @@ fn main() {
                 }
                 writeln!(f_in, "mut {}", what).unwrap();
                 f_in.flush().unwrap();
-                progress.store(id, std::sync::atomic::Ordering::Relaxed);
+                watchdog.begin(id);
                 let files: Vec<sim::SimFile> = images
                     .files
                     .iter()
@@ -557,25 +514,7 @@ fn main() {
                 .unwrap_or_else(|| vec!["format".to_string()]);
             let scheds: usize = m.get("scheds").and_then(|s| s.parse().ok()).unwrap_or(3);
             let skip: Vec<usize> = m.get("skip").map(|s| s.split(',').filter_map(|x| x.parse().ok()).collect()).unwrap_or_default();
-            let progress = std::sync::Arc::new(std::sync::atomic::AtomicUsize::new(usize::MAX));
-            {
-                let progress = progress.clone();
-                std::thread::spawn(move || {
-                    let mut last = usize::MAX;
-                    let mut since = std::time::Instant::now();
-                    loop {
-                        std::thread::sleep(std::time::Duration::from_millis(200));
-                        let cur = progress.load(std::sync::atomic::Ordering::Relaxed);
-                        if cur != last {
-                            last = cur;
-                            since = std::time::Instant::now();
-                        } else if cur != usize::MAX && since.elapsed().as_secs() >= 20 {
-                            println!("hang case={}", cur);
-                            std::process::exit(3);
-                        }
-                    }
-                });
-            }
+            let watchdog = util::Watchdog::start(m.get("hang-secs").and_then(|s| s.parse().ok()).unwrap_or(20));
             let mut f_out = std::fs::File::create(format!("{}/conc.impl", out)).unwrap();
             let conc_crashlog = m.get("crashlog").map(|s| s == "1").unwrap_or(false);
             let mut crash_in: Vec<String> = Vec::new();
@@ -601,7 +540,7 @@ fn main() {
                             continue;
                         }
                     }
-                    progress.store(run_id, std::sync::atomic::Ordering::Relaxed);
+                    watchdog.begin(run_id);
                     let mut lines: Vec<String> = Vec::new();
                     lines.push(format!("{} run={} sched={}", case.header(), run_id, sc));
                     writeln!(f_out, "{}", lines[0]).unwrap();
@@ -614,7 +553,7 @@ fn main() {
                         .collect();
                     let params = case.params();
                     let dev = match std::panic::catch_unwind(std::panic::AssertUnwindSafe(|| {
-                        futures::executor::block_on(util::open_dev(&files, &params))
+                        util::block_on(util::open_dev(&files, &params))
                     })) {
                         Ok(Ok(d)) => d,
                         _ => {
@@ -688,7 +627,7 @@ fn main() {
                             let mut p = case.params();
                             p.set_read_only(true);
                             match std::panic::catch_unwind(std::panic::AssertUnwindSafe(|| {
-                                futures::executor::block_on(async {
+                                util::block_on(async {
                                     let d = util::open_dev(&copies, &p).await?;
                                     seq::sweep(&d, case.size, 1 << case.bsb).await
                                 })
@@ -702,10 +641,10 @@ fn main() {
                             lines.push(format!("quiet {}", sweep_of(&files).replace(' ', ",")));
                         }
                         let live = std::panic::catch_unwind(std::panic::AssertUnwindSafe(|| {
-                            futures::executor::block_on(seq::sweep(&dev, case.size, 1 << case.bsb))
+                            util::block_on(seq::sweep(&dev, case.size, 1 << case.bsb))
                         }));
                         lines.push(format!("live {}", match live { Ok(Ok(s)) => s.replace(' ', ","), Ok(Err(_)) => "err".into(), Err(_) => "panic".into() }));
-                        let fl = std::panic::catch_unwind(std::panic::AssertUnwindSafe(|| futures::executor::block_on(dev.flush_meta())));
+                        let fl = std::panic::catch_unwind(std::panic::AssertUnwindSafe(|| util::block_on(dev.flush_meta())));
                         match fl {
                             Ok(Ok(())) => {
                                 lines.push("flush ok".into());
@@ -713,7 +652,7 @@ fn main() {
                                 // C05 under concurrency: after flush_meta + fsync_range everything that completed is
                                 // durable. Durable image = initial bytes + every request that completed before a
                                 // successful fsync was ISSUED (what a crash right now is guaranteed to keep).
-                                let fs = std::panic::catch_unwind(std::panic::AssertUnwindSafe(|| futures::executor::block_on(dev.fsync_range(0, usize::MAX))));
+                                let fs = std::panic::catch_unwind(std::panic::AssertUnwindSafe(|| util::block_on(dev.fsync_range(0, usize::MAX))));
                                 if let Ok(Ok(())) = fs {
                                     let mut durable = images.files[0].clone();
                                     {
